@@ -106,6 +106,7 @@ type CallSite struct {
 	Ordinal int    // 1-based; 0 = every call
 	Asserts []*Clause
 	Pos     Pos
+	Cut     bool // "cutafter": Asserts are the invariants of a path join placed after the call
 }
 
 // Let is a macro.
@@ -138,6 +139,7 @@ type FuncSpec struct {
 	Lets      []*Let
 	Loops     []*LoopSpec
 	CallSites []*CallSite
+	Cuts      []*CallSite
 	NoInline  bool
 	Inline    bool
 	Fresh     bool   // result is a freshly allocated object
@@ -204,7 +206,19 @@ type Represents struct {
 	Pkg   string
 }
 
+// TypeInv is a data invariant of a struct type over fields that are never assigned after construction:
+// "typeinv (*Timer) this.timer != nil". It is assumed for every pointer of that type the code gets hold of and proved, at
+// the return of every function that allocates the struct, for the objects allocated there.
+type TypeInv struct {
+	Recv string // (*T) as written
+	Expr Expr
+	Text string
+	Pos  Pos
+	Pkg  string
+}
+
 type File struct {
+	TypeInvs []*TypeInv
 	Reps     []*Represents
 	Path     string
 	Pkg      string
